@@ -287,11 +287,47 @@ def check_other(rep, m, it, rule="T4"):
            key="eps/" + ("ok" if not problems else "+".join(sorted(set(p[:40] for p in problems)))))
 
 
+def check_validated_dispatch(rep, m, its, RULE="T8"):
+    """every symbol of ring / branch shape is validated on every path: a path that consumes a symbol without calling a
+    symbol processor must carry the negation of the dispatch tests under which the ring and branch processors are called
+    (otherwise a malformed or legacy symbol of that shape is silently accepted in some grammar state)"""
+    D = m["roles"]["D"]
+
+    def guards(kind):
+        common = None
+        for it in its:
+            if it.kind != kind or it.proc is None:
+                continue
+            mine = {k for k, v in it.st.atoms.items() if v is True and "next" in repr(k) and k[0] in ("eq", "in")}
+            common = mine if common is None else (common & mine)
+        return common or set()
+    g_ring, g_branch = guards("ring"), guards("branch")
+    if not g_ring or not g_branch:
+        raise AnalysisError("dispatch tests of the ring / branch cases not identified in the derivation loop")
+    bad = []
+    n = 0
+    for it in its:
+        if it.kind != "other":
+            continue
+        n += 1
+        for what, gs in (("ring", g_ring), ("branch", g_branch)):
+            if not any(it.st.atoms.get(g) is False for g in gs):
+                bad.append((it, what))
+    w = None
+    if bad:
+        it, what = bad[0]
+        w = "a symbol that passes the %s dispatch test is consumed without being validated by its processor on the path [%s]: " \
+            "malformed / legacy symbols of that shape are accepted in that grammar state" % (what, ", ".join(e.kind for e in it.tags))
+    rep.ob(RULE, not bad, bad[0][0].where() if bad else D.node, D, construct="%d path(s) that consume a symbol without a processor call" % n,
+           how="each excludes the ring and branch dispatch tests", witness=w, nontrivial=True, key="validated-dispatch")
+
+
 def run(ctx, rep):
     m = decmodel.extract(ctx)
     R = m["roles"]
     D = R["D"]
     its = decmodel.iterations(m)
+    check_validated_dispatch(rep, m, its, "T8")
     kinds = {}
     for it in its:
         kinds[it.kind] = kinds.get(it.kind, 0) + 1
